@@ -199,60 +199,42 @@ theorem C16_background_replace_witness :
 
 /-- **Every history and every interleaving** of any number of `Bridge.Close` callers with any
 number of `SetSourceConnection` / `SetTargetConnection` calls (`pcs` = which thread does what,
-`s` = the schedule, not even required to let them finish): once one more `Close` — the last one,
-`runBridgeLifecycle`'s deferred `Close` — has run, no connection is left attached, and every
-connection ever attached was closed exactly once or had been overwritten by a later attach while
-still attached (`lost`, excluded by well-formed histories). -/
-theorem C16_bridge_attach (pcs : List APc) (s : Schedule) :
-    holdsA (aObs (closeSeq false (run (aProg false) s (aInit pcs)).sh)) = true :=
-  holdsA_closeSeq _ (aInv_run pcs s)
+`s` = the schedule, not even required to let them finish), for the code before and after /repo
+20329a5 (`refuse`): once one more `Close` — the last one, `runBridgeLifecycle`'s deferred `Close` —
+has run, no connection is left attached, and every connection ever handed to the bridge was closed
+exactly once (by a `Close`, or by the setter that turned it away) or had been overwritten by a
+later attach while still attached (`lost`: source re-attach on a live bridge only). -/
+theorem C16_bridge_attach (refuse : Bool) (pcs : List APc) (s : Schedule) :
+    holdsA (aObs (closeSeq false (run (aProg false refuse) s (aInit pcs)).sh)) = true :=
+  holdsA_closeSeq _ (aInv_run refuse pcs s)
 
-/-- The rejected "already closed → return" guard at the top of `Close`: Close, then a target
-attaches, then the last Close — the target connection is never closed. -/
+/-- With the refusal in place a late or duplicate TARGET attachment never overwrites anything. -/
+theorem C16_bridge_attach_no_lost_target (pcs : List APc) (s : Schedule) :
+    (run (aProg false true) s (aInit pcs)).sh.lostT = 0 := by
+  have : ∀ (s : Schedule) (c : Cfg AShared APc), c.sh.lostT = 0 → (run (aProg false true) s c).sh.lostT = 0 := by
+    intro s
+    induction s with
+    | nil => intro c h; exact h
+    | cons j s ih =>
+      intro c h
+      apply ih
+      cases hl : c.ths[j]? with
+      | none => rw [stepAt_none _ _ _ hl]; exact h
+      | some l =>
+        rw [stepAt_some _ c j l hl]
+        cases l <;> simp only [aProg, aStep] <;> (try split) <;> (try exact h)
+        rename_i hn
+        simp only [Bool.true_and, Bool.or_eq_true, not_or, Bool.not_eq_true] at hn
+        simp [hn.2, b2n, h]
+  exact this s _ rfl
+
+/-- The rejected "already closed → return" guard at the top of `Close`, on the code before the
+setters refused late attachments: Close, then a target attaches, then the last Close — the target
+connection is never closed.  (With the refusal of 20329a5 the late connection is closed by
+`SetTargetConnection` itself, whatever `Close` does afterwards.) -/
 theorem C16_bridge_attach_guard_witness :
-    holdsA (aObs (closeSeq true (run (aProg true) [0, 0, 0, 1] (aInit [.a1, .attT])).sh)) = false := by
+    holdsA (aObs (closeSeq true (run (aProg true false) [0, 0, 0, 1] (aInit [.a1, .attT])).sh)) = false := by
   decide
-
-/-! ## Client mapping handler: traffic totals of finished tunnels -/
-
-/-- The pending totals are claimed (`Swap`) before `TrackTraffic` is called; the adds are the rollback. -/
-theorem skel_mapping_reportStats :
-    Skel.Mapping_reportStats = ["BytesSent.Swap", "BytesReceived.Swap", "client.TrackTraffic",
-      "BytesSent.Add", "BytesReceived.Add"] := by decide
-
-/-- **Every interleaving** of any number of `reportStats` callers — ticks of `reportStatsLoop`, the
-final report of the handler's close cleanup — each with a succeeding or a failing `TrackTraffic`
-(`fails`), on any accumulated totals `a`, `b`: when all have returned, what was handed to successful
-`TrackTraffic` calls plus what is still pending equals `a` / `b` (each byte reported at most once,
-none lost), the pending counters are not negative, and with no failing call and at least one
-report nothing is pending (reported exactly once). -/
-theorem C16_client_report (a b : Nat) (fails : List Bool) (s : Schedule) :
-    holdsP a b fails (pObs (pFinal .swap a b fails s)) = true :=
-  holdsP_final a b fails s
-
-/-- The rejected "Load, TrackTraffic, subtract afterwards": the periodic report is inside
-`TrackTraffic` when the final report reads the same totals. -/
-theorem C16_client_report_loadSub_witness :
-    holdsP 1000 500 [false, false] (pObs (pFinal .loadSub 1000 500 [false, false] [0, 0, 1, 1, 1, 1, 0, 0])) = false := by
-  decide
-
-/-! ## ResourceManager.DisposeAll -/
-
-/-- **Any mix of `Register` and `DisposeAll` calls (on a manager that already holds `pre` resources),
-every interleaving**, followed by the last `DisposeAll`: every resource ever registered has been
-disposed — the totals show exactly once each — and the map is empty. -/
-theorem C16_resource_manager (pre : Nat) (pcs : List MPc) (h : ∀ p ∈ pcs, p = MPc.reg ∨ p = MPc.d1)
-    (s : Schedule) : holdsM2 (rmObs (mFinal pre pcs s)) = true :=
-  holdsM2_final pre pcs h s
-
-/-! ## Known finding: two bridges of one mapping -/
-
-/-- KNOWN FINDING (`K:crossbridge-lost-update`): the read-modify-write of the mapping's statistics
-spans two storage calls and `reportMu` is per bridge; when two bridges of the same mapping overlap
-between `GetPortMapping` and `UpdatePortMappingStats`, one delta is lost (reported zero times).
-`C16_report` covers one bridge; sequential reports of several bridges are fine (example below). -/
-theorem C16_crossbridge_asFound_witness :
-    holdsX [100, 7] (xFinal [100, 7] [0, 1, 0, 1]).sh = false := by decide
 
 /-! ## Traffic report -/
 
@@ -361,8 +343,9 @@ example : uObs (uFinal .setCtxFirst 1 [1, 1, 1, 1]) = ⟨3, 1, false, 0, false, 
 example : uObs (uFinal .casFirst 1 [0, 1, 1, 1, 1, 0, 0, 0]) = ⟨3, 1, true, 2, false, false⟩ := by decide
 example : holdsG (gObs (gFinal .keep 1 1 [1, 1, 2, 2, 0, 2, 1, 1, 1])) = true := by decide
 example : (gFinal .replace 1 1 [1, 1, 2, 2, 0, 2, 1, 1, 1]).ths[1]? = some ⟨GPc.wait, 0, 1⟩ := by decide
-example : aObs (closeSeq false (run (aProg false) [0, 0, 0, 1] (aInit [.a1, .attT])).sh) = ⟨1, 1, 1, 1, 0, 0, 0⟩ := by decide
-example : aObs (closeSeq true (run (aProg true) [0, 0, 0, 1] (aInit [.a1, .attT])).sh) = ⟨1, 1, 1, 0, 0, 0, 1⟩ := by decide
+example : aObs (closeSeq false (run (aProg false true) [0, 0, 0, 1] (aInit [.a1, .attT])).sh) = ⟨1, 1, 1, 1, 0, 0, 0⟩ := by decide
+example : aObs (closeSeq false (run (aProg false true) [0, 1] (aInit [.attT, .attT])).sh) = ⟨1, 1, 2, 2, 0, 0, 0⟩ := by decide
+example : aObs (closeSeq true (run (aProg true false) [0, 0, 0, 1] (aInit [.a1, .attT])).sh) = ⟨1, 1, 1, 0, 0, 0, 1⟩ := by decide
 example : pObs (pFinal .swap 1000 500 [false, false] [0, 0, 1, 1, 1, 1, 0, 0]) = ⟨1000, 500, 0, 0, 1, 0⟩ := by decide
 example : pObs (pFinal .loadSub 1000 500 [false, false] [0, 0, 1, 1, 1, 1, 0, 0]) = ⟨2000, 1000, -1000, -500, 2, 0⟩ := by decide
 example : pObs (pFinal .swap 7 0 [true, false] [0, 0, 0, 0, 1, 1, 1]) = ⟨7, 0, 0, 0, 2, 0⟩ := by decide
